@@ -1,4 +1,5 @@
 import ArgMapper.Spec.GraphSpec
+import ArgMapper.Proofs.GraphRefine
 /-!
 # C19 — graph mutations keep the edge structure consistent; copies are independent
 
@@ -38,10 +39,16 @@ structure ObsEq (w : World α) (s : SpecWorld α) (h : Nat) : Prop where
   outKeys : ∀ v, v ∈ outKeys w h ↔ v ∈ (s.view h).verts
   inKeys : ∀ v, v ∈ inKeys w h ↔ v ∈ (s.view h).verts
 
+/-- `HandlesOk` is the helper files' `HOk` (same recursion, restated here where `HandlesOk` lives) -/
+theorem handlesOk_hOk (ops : List (GOp α)) : ∀ s, HandlesOk s ops → HOk s ops := by
+  induction ops with
+  | nil => intro s _; trivial
+  | cons op ops ih => intro s h; cases op <;> exact ⟨h.1, ih _ h.2⟩
+
 /-- the specification keeps its own representation invariant -/
 theorem spec_wf (ops : List (GOp α)) (hh : HandlesOk SpecWorld.empty ops) :
-    ∀ c ∈ (specRun ops).classes, c.g.WF := by
-  sorry
+    ∀ c ∈ (specRun ops).classes, c.g.WF :=
+  foldl_wf ops (s := SpecWorld.empty) (fun c hc => by simp [SpecWorld.empty] at hc)
 
 /-- **C19_refines** — after any history of `Add, AddOverwrite, AddEdge(Weighted), RemoveEdge, Remove,
 Copy, Reverse` that respects the precondition of `AddEdge*`, every live handle of the
@@ -49,19 +56,23 @@ implementation model shows exactly what the plain adjacency specification shows.
 theorem refines (ops : List (GOp α)) (hh : HandlesOk SpecWorld.empty ops) (hr : Respects ops) :
     (implRun true ops).handles.length = (specRun ops).handles.length ∧
     ∀ h, h < (specRun ops).handles.length → ObsEq (implRun true ops) (specRun ops) h := by
-  sorry
+  have hsim := run_obs ops (handlesOk_hOk ops _ hh) hr
+  refine ⟨hsim.len, fun h hlt => ?_⟩
+  obtain ⟨h1, h2, h3, h4, h5, h6⟩ := hsim.obs hlt
+  exact ⟨h1, h2, h3, h4, h5, h6⟩
 
 /-- consequence: successors and predecessors are mirrors of one another on every handle -/
 theorem mirror (ops : List (GOp α)) (hh : HandlesOk SpecWorld.empty ops) (hr : Respects ops)
     (h : Nat) (hlt : h < (specRun ops).handles.length) (u v : α) (wt : Int) :
     (v, wt) ∈ outEdges (implRun true ops) h u ↔ (u, wt) ∈ inEdges (implRun true ops) h v := by
-  sorry
+  have ho := (refines ops hh hr).2 h hlt
+  rw [ho.outs, ho.ins]
 
 /-- reversing twice is the identity (specification level: same class, same orientation) -/
 theorem reverse_reverse (s : SpecWorld α) (h : Nat) :
     let s2 := specStep (specStep s (.reverse h)) (.reverse s.handles.length)
     s2.handle (s.handles.length + 1) = s.handle h := by
-  sorry
+  simp [specStep, SpecWorld.handle, List.getD_eq_getElem?_getD]
 
 /-- a copy is independent: an operation on the copy's handle leaves every older class untouched
 (specification level; `refines` transports it to the implementation model) -/
@@ -70,8 +81,8 @@ theorem copy_independent (s : SpecWorld α) (h : Nat) (op : GOp α)
       | .add k _ _ | .addow k _ _ | .edge k _ _ _ | .redge k _ _ | .remove k _ => k = s.handles.length
       | _ => False)
     (c : Nat) (hc : c < s.classes.length) :
-    (specStep (specStep s (.copy h)) op).classes[c]? = s.classes[c]? := by
-  sorry
+    (specStep (specStep s (.copy h)) op).classes[c]? = s.classes[c]? :=
+  copy_indep s h op hop c hc
 
 /-- the concrete failing history of finding F11 (`Reverse` without `init`): the unrepaired model
 does *not* refine the specification — proved by evaluation, replayed on the code before the fix -/
@@ -85,6 +96,8 @@ satisfies the hypotheses of `refines` -/
 example : let ops : List (GOp Nat) :=
     [.new, .add 0 1 1, .add 0 2 1, .edge 0 1 2 5, .reverse 0, .copy 1, .edge 1 1 2 7, .addow 2 1 9, .remove 2 2]
     HandlesOk SpecWorld.empty ops ∧ Respects ops := by
-  sorry
+  refine ⟨?_, ?_⟩
+  · simp only [HandlesOk]; decide
+  · unfold Respects; decide
 
 end ArgMapper.C19
